@@ -35,7 +35,7 @@ RULE = (
     "of the clean output, and a clean call on the same closure follows. (3) Schedules: 2-3 threads with drawn "
     "create/use programs start from cold caches under a deterministic line-granularity scheduler (sys.settrace in "
     "src/kio, token passing); the interleaving is a drawn list of <=3 preemptions (global step, target thread); "
-    "additionally ONE preemption is swept over EVERY step of fixed two/three-thread programs (warm and cold caches, two different values of one class) exhaustively, and EVERY PAIR of preemptions (park thread 0 at k1, park thread 1 at k2, resume 0, then 1) is swept over a warm two-thread program whose values hold multi-item arrays. EVERY PAIR of preemption points is also swept over the COLD construction of two readers by two threads (RequestHeader v2 and a class with compact strings), the closures being used afterwards. One preemption is also swept over the COLD construction-and-use of two values of the SAME class by two threads, for the tag-bearing messages and the classes with nullable struct fields. Additionally one preemption is swept over every step of thread 0 working on class X while thread 1 works on a DIFFERENT class Y (warm encode and decode), for consecutive pairs of a greedy cover of small classes that together contain every field kind (plain, array, tagged), a nullable struct and nested struct arrays. (4) Orders: in 16 (quick) / 48 (thorough) fresh processes the readers and writers of ALL 1629 classes are created and used in a different order (forward, reverse, all nested structs first, all top-level classes first, seeded shuffles); per class up to 12 fixed calls (decode of a populated, a zero, a conforming explicit-default/explicit-null and up to three null-in-non-nullable encodings; encode of the corresponding instances) must have the same outcome (value or exception type) in every order; a difference is bisected to the earlier class that causes it. (5) Repetition: for 40 classes (the 13 tag-bearing messages first; each also goes big/small/big/small through one cached closure, the big value having 9000-byte strings and 400-item tagged arrays) one cached writer and one cached reader are called 10000 (quick) / 300000 (thorough) times each on a populated value; every result must equal the reference encoding / the value; and for 6 classes 70000 (quick) / 600000 (thorough) DISTINCT values (every string, bytes, uuid and wide integer unique) go through one reader/writer pair, each must re-encode to its reference bytes, and the first 64 are decoded again afterwards. Cross-thread: calls fail part-way (injected I/O errors at several write and read positions) on a thread that stays alive, then another thread encodes and decodes the same value: pristine results required, and a call that makes no progress (same frame and instruction in two samples 2 s apart, after 20 s) is a violation. Volume: while one thread is parked in the middle of a decode, another decodes and encodes a 64 MiB message until more than 2^31 (thorough: 2^32 + 2^30) bytes went each way; every round is compared in full. Non-trivial = history with a failed call "
+    "additionally ONE preemption is swept over EVERY step of fixed two/three-thread programs (warm and cold caches, two different values of one class) exhaustively, and EVERY PAIR of preemptions (park thread 0 at k1, park thread 1 at k2, resume 0, then 1) is swept over a warm two-thread program whose values hold multi-item arrays. EVERY PAIR of preemption points is also swept over the COLD construction of two readers by two threads (RequestHeader v2 and a class with compact strings), the closures being used afterwards. One preemption is also swept over the COLD construction-and-use of two values of the SAME class by two threads, for the tag-bearing messages and the classes with nullable struct fields. Additionally one preemption is swept over every step of thread 0 working on class X while thread 1 works on a DIFFERENT class Y (warm encode and decode), for consecutive pairs of a greedy cover of small classes that together contain every field kind (plain, array, tagged), a nullable struct and nested struct arrays. (4) Orders: in 16 (quick) / 48 (thorough) fresh processes the readers and writers of ALL 1629 classes are created and used in a different order (forward, reverse, all nested structs first, all top-level classes first, seeded shuffles); per class up to 12 fixed calls (decode of a populated, a zero, a conforming explicit-default/explicit-null and up to three null-in-non-nullable encodings; encode of the corresponding instances) must have the same outcome (value or exception type) in every order; a difference is bisected to the earlier class that causes it. (5) Repetition: for 40 classes (the 13 tag-bearing messages first; each also goes big/small/big/small through one cached closure, the big value having 9000-byte strings and 400-item tagged arrays) one cached writer and one cached reader are called 10000 (quick) / 300000 (thorough) times each on a populated value; every result must equal the reference encoding / the value; and for 6 classes 70000 (quick) / 600000 (thorough) DISTINCT values (every string, bytes, uuid and wide integer unique) go through one reader/writer pair, each must re-encode to its reference bytes, and the first 64 are decoded again afterwards. In-handler: encode and decode inside an except block, inside a finally block during unwinding and inside __exit__ with an exception. Tagged pairs: every ordered pair of the classes that define tagged fields, X used right before Y. Cross-thread: calls fail part-way (injected I/O errors at several write and read positions) on a thread that stays alive, then another thread encodes and decodes the same value: pristine results required, and a call that makes no progress (same frame and instruction in two samples 2 s apart, after 20 s) is a violation. Volume: while one thread is parked in the middle of a decode, another decodes and encodes a 64 MiB message until more than 2^31 (thorough: 2^32 + 2^30) bytes went each way; every round is compared in full. Non-trivial = history with a failed call "
     "followed by a successful call on the same closure / fault k strictly inside the call / schedule with >=1 "
     "preemption landing inside entity_reader/entity_writer construction or read_entity/write_entity; distinct by hash."
 )
@@ -1062,6 +1062,11 @@ def kind_cover_classes() -> list[str]:
     return picked
 
 
+def tag_bearing_classes() -> list[str]:
+    """every class (any version, nested ones too) that itself declares at least one tagged field"""
+    return [D.describe(c).path for c in D.all_classes() if D.describe(c).tagged_fields]
+
+
 def tag_bearing_messages() -> list[str]:
     """One top-level message per (api, entity type) - the latest version - among those that contain, at any depth, a
     class declaring tagged fields; ordered so that ring neighbours belong to different APIs."""
@@ -1437,8 +1442,105 @@ def RecordingSink_chunks(cd, value) -> list:
     return list(sink.chunks)
 
 
+def in_handler(path: str) -> list[tuple[str, str]]:
+    """The same encode / decode while the calling thread is HANDLING an earlier exception - inside an except block, inside
+    a finally block during unwinding, and inside __exit__ of a context manager that received the exception (how retry and
+    clean-up code runs): the interpreter's "exception being handled" state is history like any other."""
+    from ..c19_orders import populated_tree
+
+    cd = D.describe(D.resolve(path))
+    tree = populated_tree(cd, 2, 0)
+    data = ref_encode(cd, tree)
+    value = to_entity(cd, tree)
+    out = []
+
+    def both(where: str):
+        try:
+            enc = K.encode(cd.cls, value)
+            dec = K.decode(cd.cls, data)
+        except Exception as e:  # noqa: BLE001
+            out.append((f"in-handler:raised:{K.exc_signature(e)}", f"{path} {where}: {e!r:.300}"))
+            return
+        if enc != data:
+            out.append(("in-handler:encode-differs", f"{path}: encoded {where} the value gives {enc.hex()[:200]}, otherwise {data.hex()[:200]}"))
+        if not py_equal(dec[0], value) or dec[1] != len(data):
+            out.append(("in-handler:decode-differs", f"{path}: decoded {where} the bytes give {dec[0]!r:.300}"))
+
+    try:
+        K.entity_writer(cd.cls)(FaultySink(1, ConnectionResetError(104, "reset by peer")), value)
+    except ConnectionResetError:
+        both("inside the except block of a failed write")
+    try:
+        try:
+            raise TimeoutError("timed out")
+        finally:
+            both("inside a finally block while an exception propagates")
+    except TimeoutError:
+        pass
+
+    class _Cm:
+        def __enter__(self):
+            return self
+
+        def __exit__(self, et, ev, tb):
+            both("inside __exit__ of a context manager that received an exception")
+            return True
+
+    with _Cm():
+        raise KeyError("x")
+    both("after all handlers were left")
+    return out
+
+
+def tagged_pair_sequences(paths: list[str]) -> tuple[list[tuple[str, str]], int]:
+    """For every ORDERED pair (X, Y) of the given classes: X's populated value is encoded and decoded, then Y's - Y's results
+    must be the pristine ones whatever X was (the populated values of all classes share their small integers, strings and
+    tag numbers, so anything keyed by tag or value alone conflates them)."""
+    from ..c19_orders import populated_tree
+
+    items = []
+    for p in paths:
+        cd = D.describe(D.resolve(p))
+        tree = populated_tree(cd, 2, 0)
+        items.append((cd, ref_encode(cd, tree), to_entity(cd, tree)))
+    clear_caches()
+    out, n = [], 0
+    for cx, dx, vx in items:
+        for cy, dy, vy in items:
+            if cx is cy:
+                continue
+            n += 1
+            try:
+                K.encode(cx.cls, vx)
+                K.decode(cx.cls, dx)
+                enc = K.encode(cy.cls, vy)
+                dec = K.decode(cy.cls, dy)
+            except Exception as e:  # noqa: BLE001
+                out.append((f"sequence:raised:{K.exc_signature(e)}", f"{cy.path} right after {cx.path}: {e!r:.300}"))
+                continue
+            if enc != dy:
+                out.append(("sequence:encode-differs", f"{cy.path} encoded right after {cx.path}: {enc.hex()[:200]}, pristine {dy.hex()[:200]}"))
+            elif not py_equal(dec[0], vy) or dec[1] != len(dy):
+                out.append(("sequence:decode-differs", f"{cy.path} decoded right after {cx.path}: {dec[0]!r:.300}"))
+            if len(out) >= 5:
+                return out, n
+    return out, n
+
+
 def _cross_thread_worker(paths):
     rep = Report(prop=ID, level="exploration", rule=RULE)
+    if paths and paths[0] == "__pairs__":
+        fails, n = tagged_pair_sequences(paths[1:])
+        rep.evaluations += 4 * n
+        rep.nontrivial.add(case_hash(("tagged-pair-sequences", n)))
+        rep.extra["counters"] = {"tagged_pair_sequences": n}
+        for sig, msg in fails:
+            rep.add_failure(Failure(sig, msg, {"kind": "tagged-pairs"}, 1))
+        return rep
+    for path in paths:
+        rep.evaluations += 8
+        for sig, msg in in_handler(path):
+            rep.add_failure(Failure(sig, msg, {"kind": "in-handler", "class": path}, 1))
     for path in paths:
         rep.evaluations += 10
         rep.nontrivial.add(case_hash(("cross-thread", path)))
@@ -1639,7 +1741,7 @@ def run(ctx: Ctx) -> Report:
     # schedulers of the later stages (their time-outs are harness errors, never violations): if it is found here the run
     # ends with this violation.
     xt = list(dict.fromkeys(tag_bearing_messages() + paths))[: 16 if ctx.quick else 64]
-    for rep in pool_map(_cross_thread_worker, [xt[i::16] for i in range(16) if xt[i::16]]):
+    for rep in pool_map(_cross_thread_worker, [xt[i::16] for i in range(16) if xt[i::16]] + [["__pairs__"] + tag_bearing_classes()]):
         total.merge(rep)
     lap("failure_then_other_thread")
     if any(f.signature == "cross-thread:call-never-returns" for f in total.failures.values()):
@@ -1726,6 +1828,10 @@ def replay(case):
         return flood(case["class"], case["n"])
     if kind == "cross-thread":
         return failure_then_other_thread(case["class"])
+    if kind == "in-handler":
+        return in_handler(case["class"])
+    if kind == "tagged-pairs":
+        return tagged_pair_sequences(tag_bearing_classes())[0]
     if kind == "volume":
         return volume_under_overlap(case["bytes"])[0]
     if kind == "order-self":
